@@ -20,7 +20,7 @@ elab "#audit_module " m:ident : command => do
       -- only the theorems stated in the property's own namespace; skip equation lemmas
       if !(modName.isPrefixOf n) then continue
       let last := n.components.getLast?.map (·.toString) |>.getD ""
-      if last.startsWith "eq_" || last.startsWith "match_" || last.startsWith "proof_" then continue
+      if last.startsWith "match_" || last.startsWith "proof_" then continue
       match env.find? n with
       | some (.thmInfo _) =>
         let axs ← liftCoreM <| collectAxioms n
